@@ -795,6 +795,7 @@ func (t *TriDense) SolveTo(dst *Dense, trans bool, b Matrix) error {
 	}
 
 	dst.reuseAsNonZeroed(n, nrhs)
+	dst.checkOverlapMatrix(t)
 	bU, bTrans := untranspose(b)
 	if dst == bU {
 		if bTrans {
